@@ -235,6 +235,46 @@ def _try_for_each(ids):
     return fn
 
 
+def _map_fusion(n):
+    """`for x in it.map(|p| e) { body }` -> `for p in it { let x = e; body }` (the closure runs once per item, just before the body)."""
+    if n.get("k") != "match" or n.get("src") != "ForLoopDesugar":
+        return n
+    it = n.get("scrut")
+    if not (isinstance(it, dict) and it.get("k") == "call" and (it.get("callee") or "").endswith("IntoIterator::into_iter") and len(it.get("args", [])) == 1):
+        return n
+    inner = hir.simp(it["args"][0])
+    if not (isinstance(inner, dict) and inner.get("k") == "call" and (inner.get("callee") or "") == "core::iter::traits::iterator::Iterator::map" and len(inner["args"]) == 2):
+        return n
+    clo = hir.simp(inner["args"][1])
+    if not (isinstance(clo, dict) and clo.get("k") == "closure" and len(clo.get("params", [])) == 1) or any(x.get("k") == "ret" for x in nodes_outside_closures(clo["body"])):
+        return n
+    try:
+        lp = hir.simp(n["arms"][0]["body"])
+        m = hir.simp(lp["body"]["stmts"][0] if lp["body"].get("stmts") else lp["body"]["expr"])
+        some = [a for a in m["arms"] if hir.last_seg((a["pat"].get("path") or {}).get("path")) == "Some"][0]
+        sp = some["pat"]
+        user_pat = sp["fields"][0]["p"] if sp["k"] == "pstruct" else sp["pats"][0]
+    except (KeyError, IndexError, TypeError):
+        return n
+    new = copy.deepcopy(n)
+    new["scrut"]["args"][0] = inner["args"][0]
+    lp = hir.simp(new["arms"][0]["body"])
+    m = lp["body"]["stmts"][0] if lp["body"].get("stmts") else lp["body"]["expr"]
+    some = [a for a in m["arms"] if hir.last_seg((a["pat"].get("path") or {}).get("path")) == "Some"][0]
+    if some["pat"]["k"] == "pstruct":
+        some["pat"]["fields"][0]["p"] = copy.deepcopy(clo["params"][0])
+    else:
+        some["pat"]["pats"][0] = copy.deepcopy(clo["params"][0])
+    body = some["body"]
+    let = {"k": "let", "pat": user_pat, "init": clo["body"], "ln": clo.get("ln"), "norm": "map-fusion"}
+    if isinstance(body, dict) and body.get("k") == "block":
+        some["body"] = dict(body, stmts=[let] + list(body.get("stmts", [])))
+    else:
+        some["body"] = {"k": "block", "stmts": [let], "expr": body, "ty": body.get("ty") if isinstance(body, dict) else None, "ln": n.get("ln")}
+    new["norm"] = "map-fusion"
+    return new
+
+
 # ---------------------------------------------------------------------------------------------------------------------
 # statement-level rewrites
 
@@ -996,6 +1036,7 @@ def normalise_crate(name, crate):
             if any(x.get("inlined") for x in all_nodes(h2) if isinstance(x, dict)):
                 h2 = hoist(h2)
                 h2 = case_of_case(h2)
+                h2 = map_tree(h2, _map_fusion)
                 b["inlined_from"] = sorted({x["inlined"] for x in all_nodes(h2) if x.get("inlined")} |
                                            {x["inl"] for x in all_nodes(h2) if x.get("inl")})
             h = h2
